@@ -16,7 +16,7 @@ func init() {
 type gateAnchors struct {
 	needs, readX, ruleHash, sourceHash, secretHash, writeRule, targetHash *ssa.Function
 	fileExists, pathExists, outputs, shouldRebuild                        *ssa.Function
-	hashFn, moveOutput, moveOutputs, moveHash, buildTarget               *ssa.Function
+	hashFn, moveOutput, moveOutputs, moveHash, buildTarget                *ssa.Function
 }
 
 func (p *Prog) gate(r *Report, rule string) *gateAnchors {
